@@ -6,7 +6,7 @@ import json
 import random
 
 import idcommon as ic
-from common import NCPU, drive, run_parallel, seed
+from common import NCPU, NSHARDS, shard_hashseed, drive, run_parallel, seed
 
 
 def problems(wd, tier, rng):
@@ -36,16 +36,16 @@ def problems(wd, tier, rng):
 
 
 def run_y0(wd, items, tag):
-    shards = [items[i::NCPU] for i in range(NCPU)]
+    shards = [items[i::NSHARDS] for i in range(NSHARDS)]
     jobs = []
     for i, sh in enumerate(shards):
         if sh:
             f = wd / f"{tag}-in{i}.json"
             f.write_text(json.dumps(sh))
-            jobs.append((f, wd / f"{tag}-out{i}.json"))
+            jobs.append((f, wd / f"{tag}-out{i}.json", i))
 
     def one(job):
-        drive("drive_tr.py", [str(job[0]), str(job[1])])
+        drive("drive_tr.py", [str(job[0]), str(job[1])], hashseed=shard_hashseed(job[2]))
         return json.loads(job[1].read_text())
 
     return [g for r in run_parallel(one, jobs) for g in r]
